@@ -223,8 +223,31 @@ def token_boundaries(ctx, res, rule):
                     res.holds(rule, fn, "element-boundary-from:%s" % st)
                 else:
                     res.add(Finding(rule, fn, "element-boundary-from:%s" % st, "an Element token boundary is emitted from state %s before the end delimiter is matched completely" % st, loc=T.loc(b["tree"])))
+    element_kind_sites(ctx, res, rule)
     res.floor(rule, "transitions that freshly enter DelimiterStart", n_fresh, 3)
     res.floor(rule, "transitions that emit an Element boundary", n_elem, 1)
+
+
+def element_kind_sites(ctx, res, rule):
+    """An Element token kind is produced only by the transition function (whose Element outcome requires a completely
+    matched end delimiter): no other function - in particular not the end-of-input flush - decides that a span is a tag."""
+    P = ctx.lib
+    n_ok = 0
+    for bd in P.user_bodies():
+        if bd["kind"] not in ("Fn", "AssocFn"):
+            continue
+        for n in T.nodes(bd["tree"]):
+            is_ctor = n.get("k") == "call" and T.render(n["f"]).endswith("TokenKind::Element")
+            is_lit = n.get("k") == "struct" and T.strip_generics(n["res"].get("path") or "").endswith("tokenizer::ElementToken")
+            if not (is_ctor or is_lit):
+                continue
+            if fshort(bd) == "tokenizer::get_state":
+                n_ok += 1
+                res.holds(rule, fshort(bd), "element-kind-site:" + ("ctor" if is_ctor else "literal"))
+            else:
+                res.add(Finding(rule, fshort(bd), "element-kind-site", "an Element token kind is constructed in %s, outside the transition function: a span becomes a tag without "
+                                "the end delimiter having been matched by get_state" % fshort(bd), loc=T.loc(n)))
+    res.floor(rule, "Element kind construction sites in get_state", n_ok, 1)
 
 
 def _judge(res, rule, fn, site, u, want, loc, what):
